@@ -61,6 +61,15 @@ func IsHarnessName(n string) bool {
 	return false
 }
 
+// OvCode: the number an overload of the ov family with a numeric result returns.
+func OvCode(marker string) float64 {
+	h := 0
+	for _, c := range marker {
+		h = (h*31 + int(c)) % 9973
+	}
+	return float64(1000 + h)
+}
+
 // selIndex: which of n operands a lz_sel function forces for selector x.
 func selIndex(x float64, n int) int {
 	if x == x && x >= 0 && x < 1e9 {
@@ -216,12 +225,20 @@ func MakeHarnessFun(f ref.FunSig, tr *Tracer) *val.Val {
 		}
 	case "ov":
 		marker := f.Impl
+		retK := f.Ret.K
 		impl = func(args ...*val.Val) *val.Val {
 			xs := make([]string, len(args))
 			for i, a := range args {
 				xs[i] = renderYae(a)
 			}
 			tr.Add(traceLine(marker, xs))
+			// the result reveals which registration ran, in the registration's own result type
+			switch retK {
+			case m.TNum:
+				return val.Num(OvCode(marker))
+			case m.TBool:
+				return val.True
+			}
 			return val.Str(marker)
 		}
 	default:
@@ -348,8 +365,15 @@ func RefHarness(sigs []ref.FunSig) map[string]ref.HarnessFun {
 	for _, s := range sigs {
 		if strings.HasPrefix(s.Impl, "ov#") {
 			marker := s.Impl
+			retK := s.Ret.K
 			h[marker] = ref.HarnessFun{Strict: func(ev *ref.Evaluator, ret *m.Type, a []*m.Val) (*m.Val, *ref.Failure) {
 				refTrace(ev, marker, a)
+				switch retK {
+				case m.TNum:
+					return m.VNum(OvCode(marker)), nil
+				case m.TBool:
+					return m.VBool(true), nil
+				}
 				return m.VStr(marker), nil
 			}}
 		}
